@@ -44,6 +44,7 @@ type Program struct {
 
 	loopInvs      map[string][]*LoopInv
 	loopSteps     map[string][]*LoopInv
+	loopExits     map[string][]*LoopInv
 	summaries     map[string]*Summary
 	intrinsics    map[string]func(ex *Exec, f *Frame, call *ssa.Call, args []Value, reach *Term) (Value, *Term)
 	overlay       map[string][]byte
@@ -68,7 +69,7 @@ func LoadProgram(repoDir, contractsDir string) (*Program, error) {
 	P := &Program{spkgs: map[string]*ssa.Package{}, files: map[string]*ast.File{}, src: map[string][]byte{},
 		typeIDs: map[string]int{}, typeByID: []types.Type{nil}, funcIDs: map[*ssa.Function]int{}, funcByID: []*ssa.Function{nil},
 		globals: map[*ssa.Global]int64{}, fnInfo: map[*ssa.Function]*fnInfo{}, litObjs: map[string]StrV{}, litByRef: map[int64]string{},
-		interned: map[string]int{}, implMemo: map[string][]types.Type{}, loopInvs: map[string][]*LoopInv{}, loopSteps: map[string][]*LoopInv{}, summaries: map[string]*Summary{},
+		interned: map[string]int{}, implMemo: map[string][]types.Type{}, loopInvs: map[string][]*LoopInv{}, loopSteps: map[string][]*LoopInv{}, loopExits: map[string][]*LoopInv{}, summaries: map[string]*Summary{},
 		overlay: map[string][]byte{}, repoDir: repoDir}
 	P.litCtr = litBase
 	P.intrinsics = intrinsicTable()
@@ -395,6 +396,7 @@ func (P *Program) exprText(pos token.Pos, kind string) string {
 // invariant global state every other function starts from.
 func (P *Program) RunInit() error {
 	cfg := newRunCfg()
+	cfg.initMode, cfg.unrollAll = true, 512 // initialisers run on concrete data: loops are executed, not cut
 	ex := newExec(P, cfg)
 	ex.ctrBase, ex.ctrOff = Int(0), P.nextGlob
 	ex.fnStack = []string{"init"}
